@@ -43,7 +43,7 @@ def budget(tier):
 
 @st.composite
 def case_a(draw):
-    g = draw(gen_graph.raw_gfa(max_nodes=8, max_links=12, seq_mode="mixed"))
+    g = draw(gen_graph.raw_gfa(max_nodes=8, max_links=12, seq_mode="mixed", soft_masked=True, no_final_newline_ok=True))
     return {"kind": "io", "gfa": g["text"]}
 
 
@@ -73,8 +73,14 @@ def case_b(draw):
             ltags[i] = draw(gen_graph.sam_tags(max_tags=2)) or ["SR:i:0"]
     k = draw(st.integers(1, nchrom))
     order = list(draw(st.permutations(names)))[:k]
+    for d_ in g["nodes"].values():
+        if draw(st.integers(0, 5)) == 0:
+            k_ = draw(st.integers(0, len(d_["seq"])))
+            d_["seq"] = d_["seq"][:k_] + d_["seq"][k_:].lower()
     text = gen_graph.gfa_text(g, with_seq=True, extra_tags=extra, link_tags=ltags,
                               order_seed=draw(st.integers(0, 999)), header=draw(st.booleans()))
+    if draw(st.integers(0, 5)) == 0:
+        text = text[:-1]  # no newline after the last record
     return {"kind": "order", "gfa": text, "order": ",".join(order), "by_chrom": draw(st.integers(0, 1)) == 1,
             "with_sequence": draw(st.integers(0, 1)) == 1}
 
@@ -129,6 +135,10 @@ def run_io(case):
         cl.append("tagged_link")
     if any(":" in t.split(":", 2)[2] for s in segs.values() for t in s[1]):
         cl.append("colon_in_tag_value")
+    if any(s[0] != s[0].upper() for s in segs.values()):
+        cl.append("soft_masked_bases")
+    if not case["gfa"].endswith("\n"):
+        cl.append("no_final_newline")
     return core.Result(bool({"link_minus_minus", "self_link", "adjacency_declared_twice"} & set(cl)), cl)
 
 
@@ -193,6 +203,10 @@ def run_order_case(case):
         cl.append("chromosomes>=2")
     if any(t.startswith("BO:") for s in segs_in.values() for t in s[1]):
         cl.append("stale_BO_NO")
+    if any(s[0] != s[0].upper() for s in segs_in.values()):
+        cl.append("soft_masked_bases")
+    if not case["gfa"].endswith("\n"):
+        cl.append("no_final_newline")
     return core.Result(len(order) >= 2 or case["with_sequence"], cl)
 
 
